@@ -62,7 +62,8 @@ func (o *orbitDBDocumentStore) Get(_ context.Context, key string, opts *iface.Do
 
 		value := o.Index().Get(indexKey)
 		if value == nil {
-			return nil, fmt.Errorf("value not found for key %s", indexKey)
+			// deleted since the keys were listed: not one of the documents any more
+			continue
 		}
 
 		if _, ok := value.([]byte); !ok {
